@@ -833,8 +833,27 @@ func genC19(c *Ctx) {
 	}
 
 	// ---------------- the three repository fixtures ----------------
-	for _, f := range []string{"rpm/DSA-1024-sha1.rpm", "rpm/RSA-2048-sha256.rpm", "rpm/unsigned.rpm"} {
-		c19Emit(c, "fixture", fixture(f), SL{})
+	// what they store was read off their hex dumps (lead name, digests in the signature header's
+	// store, "04 00 11 02" / "04 00 01 08" and the issuer subpackets "09 10 ..." of the packets)
+	fxMD5, _ := hex.DecodeString("d3fb0333e5afbb2de2081d55ed6a02f4")
+	fxSHA1 := "b9442a6df9f72170977da430b0e90dc101b5491d"
+	fxSHA256 := "7608abc6fcacfde5ad14ae5ac660ac1f6d590b43a8bce8473de4de054cb6616d"
+	for _, fx := range []struct {
+		file       string
+		slots      []int
+		algo, hash int
+		issuer     uint64
+	}{
+		{"rpm/DSA-1024-sha1.rpm", []int{0, 2}, 17, 2, 0x8D5FC059A836616C},
+		{"rpm/RSA-2048-sha256.rpm", []int{1, 3}, 1, 8, 0x984FEC4B3AEC9BB6},
+		{"rpm/unsigned.rpm", nil, 0, 0, 0},
+	} {
+		p := rpmPkg{Name: "dummy", Version: "0.0.1", Release: "1", Arch: "noarch", MD5: fxMD5, SHA1: &fxSHA1, SHA256: &fxSHA256}
+		var st [4]Sx
+		for _, k := range fx.slots {
+			st[k] = SL{I(fx.algo), I(fx.hash), SL{SB(be64(fx.issuer))}}
+		}
+		c19Emit(c, "fixture", fixture(fx.file), p.truth(st))
 	}
 
 	// ---------------- well-formed generated packages ----------------
